@@ -165,6 +165,9 @@ FsCommit(h, p) ==
                   \cup FlagIf(~(adds \subseteq mine), "C04_ForeignCommit")
                   \cup FlagIf(adds # {} /\ adds # mine, "C04_PartialCommit")
                   \cup FlagIf(lastRead[h] # ListNames, "C09_StaleCommit")
+                  \* a table may only be rewritten (dropped from the list by a compaction) by the handle holding its lock
+                  \cup FlagIf(\E n \in Range(ListNames) \ Range(CommitNew(p)) :
+                                ~(Exists(n \o ".lock") /\ Ino(n \o ".lock").creator = h), "C08_CompactsUnlocked")
   /\ UNCHANGED <<ino, lastRead, tabHist>>
 
 -----------------------------------------------------------------------------
@@ -221,7 +224,7 @@ C04_OnlyLockFailures == viol \cap {"C04_OtherFailure", "C04_EmptyTxnFailed"} = {
 C06_Atomic == viol \cap {"C06_ListTruncated"} = {}
 
 (* C08 *)
-C08_OwnerOnly == viol \cap {"C08_OwnerOnly", "C08_NoStolenCommit", "C08_WriteWithoutLock"} = {}
+C08_OwnerOnly == viol \cap {"C08_OwnerOnly", "C08_NoStolenCommit", "C08_WriteWithoutLock", "C08_CompactsUnlocked"} = {}
 
 (* C09 (concurrent half): the commit rename is performed only by a handle   *)
 (* whose last reading of tables.list is still the current list              *)
